@@ -55,7 +55,10 @@ func (s jsonSet) hashCode(options []Option) [8]byte {
 		hc := v.hashCode(options)
 		sMap[hc] = true
 	}
-	hashes := make(hashCodes, 0, len(sMap))
+	hashes := make(hashCodes, 0, len(sMap)+1)
+	// Start with a constant so that an empty set does not hash like an
+	// empty string (both would hash zero bytes).
+	hashes = append(hashes, [8]byte{0x9C, 0x41, 0xE7, 0x0B, 0x5A, 0xD2, 0x36, 0xF8}) // random bytes
 	for hc := range sMap {
 		hashes = append(hashes, hc)
 	}
